@@ -14,3 +14,117 @@ Definition raw_feed (user tail buf_len : Z) (b : bytes) : option bytes :=
   let n := blen b in
   if (n <=? user + tail) || (n - user - tail >? buf_len) then None
   else Some (slice b user (n - user - tail)).
+
+(* ================================================================ pcap records *)
+(* a pcap record: original length on the wire and the captured bytes (caplen = their number) *)
+Record pframe := mk_pframe { pf_len : Z; pf_data : bytes }.
+
+(* what libpcap's filter "[vlan && ] udp dst port N" accepts, evaluated on the captured bytes (a load
+   beyond the captured length rejects the frame).  Validated against pcap_offline_filter. *)
+Definition is_vlan_type (t : Z) : bool := (t =? 33024) || (t =? 34984) || (t =? 37120).  (* 0x8100 0x88a8 0x9100 *)
+
+Definition bpf_udp (vlan : bool) (port : option Z) (f : bytes) : bool :=
+  let cap := blen f in
+  let sh := if vlan then 4 else 0 in
+  (if vlan then (14 <=? cap) && is_vlan_type (be16 f 12) else true) &&
+  (14 + sh <=? cap) &&
+  let et := be16 f (12 + sh) in
+  if et =? 34525 then       (* IPv6: next header = UDP, no extension headers *)
+    (21 + sh <=? cap) && (u8 f (20 + sh) =? 17) &&
+    match port with None => true | Some p => (58 + sh <=? cap) && (be16 f (56 + sh) =? p) end
+  else if et =? 2048 then   (* IPv4 *)
+    (24 + sh <=? cap) && (u8 f (23 + sh) =? 17) &&
+    match port with
+    | None => true
+    | Some p =>
+        (22 + sh <=? cap) && (Z.land (be16 f (20 + sh)) 8191 =? 0) &&      (* not a later fragment *)
+        (15 + sh <=? cap) &&
+        let ihl := Z.land (u8 f (14 + sh)) 15 * 4 in
+        (14 + sh + ihl + 4 <=? cap) && (be16 f (14 + sh + ihl + 2) =? p)
+    end
+  else false.
+
+Record incfg := mk_incfg {
+  i_msop_port : Z; i_difop_port : Z; i_vlan : bool; i_user : Z; i_tail : Z }.
+
+Definition difop_filter_valid (c : incfg) : bool := negb (i_difop_port c =? 0) && negb (i_difop_port c =? i_msop_port c).
+
+(* InputPcap::recvPacket for one record: the payload handed to the driver, or nothing *)
+Definition pcap_extract (c : incfg) (f : pframe) : option bytes :=
+  let off := g_ETH_HDR_LEN + (if i_vlan c then g_VLAN_HDR_LEN else 0) + i_user c in
+  let hit := bpf_udp (i_vlan c) (Some (i_msop_port c)) (pf_data f) ||
+             (difop_filter_valid c && bpf_udp (i_vlan c) (Some (i_difop_port c)) (pf_data f)) in
+  if negb hit then None
+  else if (blen (pf_data f) <? pf_len f) || (pf_len f <=? off + i_tail c) || (pf_len f - off - i_tail c >? g_ETH_LEN) then None
+  else Some (slice (pf_data f) off (pf_len f - off - i_tail c)).
+
+(* ================================================================ sockets *)
+(* recvfrom() into the packet buffer truncates; nothing is delivered unless a payload remains *)
+Definition sock_extract (user tail buf_len : Z) (d : bytes) : option bytes :=
+  let n := Z.min (blen d) buf_len in
+  if n <=? user + tail then None else Some (slice d user (n - user - tail)).
+
+Definition sock_accepts (c : incfg) (port : Z) : bool :=
+  (port =? i_msop_port c) || (difop_filter_valid c && (port =? i_difop_port c)).
+
+(* ================================================================ jumbo: IP fragment reassembly *)
+Inductive ipfrag :=
+| FIgnore                                       (* not IPv4/UDP, or inconsistent lengths *)
+| FFrag (id off : Z) (more : bool) (data : bytes).
+
+(* parse an Ethernet frame (captured bytes) the way Jumbo::new_fragment does *)
+Definition parse_frag (f : bytes) : ipfrag :=
+  let cap := blen f in
+  if cap <? 34 then FIgnore
+  else if negb (be16 f 12 =? 2048) then FIgnore
+  else if negb (u8 f 23 =? 17) then FIgnore
+  else
+    let ihl := Z.land (u8 f 14) 15 * 4 in
+    let tot := be16 f 16 in
+    if (ihl <? 20) || (tot <? ihl) || (cap <? 14 + tot) then FIgnore
+    else
+      let fo := be16 f 20 in
+      FFrag (be16 f 18) (Z.land fo 8191 * 8) (negb (Z.land (fo / 8192) 1 =? 0)) (slice f (14 + ihl) (tot - ihl)).
+
+(* assembly in progress: identification and the bytes gathered so far *)
+Definition jstate := option (Z * bytes).
+
+Definition udp_out (dgram : bytes) : option (Z * bytes) :=
+  if blen dgram <? g_UDP_HDR_LEN then None else Some (be16 dgram 2, skipn (Z.to_nat g_UDP_HDR_LEN) dgram).
+
+Definition jumbo_step (st : jstate) (fr : ipfrag) : jstate * option (Z * bytes) :=
+  match fr with
+  | FIgnore => (st, None)
+  | FFrag id off more data =>
+      if (off =? 0) && negb more then (st, udp_out data)            (* unfragmented: delivered at once, assembly untouched *)
+      else
+        match st with
+        | Some (cur, acc) =>
+            if id =? cur then
+              if off =? blen acc then
+                if blen acc + blen data >? 65535 then (None, None)   (* cannot be a UDP datagram: abandon *)
+                else if more then (Some (cur, acc ++ data), None)
+                else (None, udp_out (acc ++ data))
+              else (st, None)                                         (* out of order / duplicate: ignored *)
+            else if (off =? 0) then (Some (id, data), None)           (* a new datagram starts *)
+            else (st, None)
+        | None => if off =? 0 then (Some (id, data), None) else (None, None)
+        end
+  end.
+
+(* InputPcapJumbo::recvPacket for one record *)
+Definition jumbo_extract (c : incfg) (st : jstate) (f : pframe) : jstate * option bytes :=
+  if negb (bpf_udp (i_vlan c) None (pf_data f)) then (st, None)
+  else
+    let '(st', o) := jumbo_step st (parse_frag (pf_data f)) in
+    match o with
+    | Some (port, payload) => if (port =? i_msop_port c) || (port =? i_difop_port c) then (st', Some payload) else (st', None)
+    | None => (st', None)
+    end.
+
+(* the abstract view: a run of frames delivers these datagrams *)
+Fixpoint jumbo_run (st : jstate) (frs : list ipfrag) : list (Z * bytes) :=
+  match frs with
+  | [] => []
+  | fr :: r => let '(st', o) := jumbo_step st fr in (match o with Some x => [x] | None => [] end) ++ jumbo_run st' r
+  end.
